@@ -11,6 +11,7 @@ import (
 	"strconv"
 	"strings"
 	"sync"
+	"sync/atomic"
 	"time"
 
 	"github.com/olric-data/olric"
@@ -606,10 +607,17 @@ func (l *rawLock) Lease(ctx context.Context, d time.Duration) error {
 }
 func (l *rawLock) Token() string { return l.token }
 
+var rawLockForms uint64
+
 func (r *rawClient) Lock(ctx context.Context, key string, timeout, deadline time.Duration) (Lock, error) {
 	args := bs("DM.LOCK", r.s.r.DMap, key, fsec(deadline))
 	if timeout != 0 {
-		args = append(args, bs("PX", ims(timeout))...)
+		// the protocol knows both spellings: PX <milliseconds> and EX <seconds, possibly with a fraction>
+		if atomic.AddUint64(&rawLockForms, 1)%2 == 0 {
+			args = append(args, bs("EX", fsec(timeout))...)
+		} else {
+			args = append(args, bs("PX", ims(timeout))...)
+		}
 	}
 	rep, err := r.do(key, args...)
 	if err != nil {
